@@ -430,3 +430,268 @@ Proof.
     - unfold qinv. cbn [init_state thr tok]. rewrite count_init; [cbn; lia|reflexivity]. }
   unfold qinv in I. unfold copies. fold (count in_copy (thr s)). lia.
 Qed.
+
+(** * Deduplicating replicator: a reported success is justified
+
+    History variables: the events below are a function of the pre-state and
+    the step taken ([gstep]); [grun] collects them, newest first. *)
+Inductive gev :=
+| GAsk (i k e : nat)     (* caller i asked for key k: it found, or created, in-flight entry e *)
+| GJust (e : nat)        (* the owner of entry e saw the sink report "present", or its copy completed *)
+| GSucc (i k e : nat).   (* caller i is told "success" for key k on the strength of entry e *)
+
+Definition gstep (s : cstate) (e : ev) : list gev :=
+  match e with
+  | ETau i false =>
+      match nth_error (thr s) i with
+      | Some t =>
+          match tpc t with
+          | Idle => match todo t with
+                    | k :: _ => [GAsk i k (match lookup_key k (inflight s) with Some e => e | None => length (ents s) end)]
+                    | [] => []
+                    end
+          | Wait k e => match nth_error (ents s) e with Some (true, true) => [GSucc i k e] | _ => [] end
+          | Close k e c => if c =? 0 then [GSucc i k e] else []
+          | _ => []
+          end
+      | None => []
+      end
+  | ERel i f =>
+      match nth_error (thr s) i with
+      | Some t =>
+          match tpc t with
+          | Fm k e => if (f =? 0) && memn k (snk s) then [GJust e] else []
+          | Put d b [] e => if (if negb (f =? 0) then f else b) =? 0 then [GJust e] else []
+          | _ => []
+          end
+      | None => []
+      end
+  | _ => []
+  end.
+
+Fixpoint grun (s : cstate) (tr : list ev) (log : list gev) : option (cstate * list gev) :=
+  match tr with
+  | [] => Some (s, log)
+  | e :: r => match step MDedup s e with
+              | Some s' => grun s' r (gstep s e ++ log)
+              | None => None
+              end
+  end.
+
+(** What a pc says about the entry its caller asked for. *)
+Definition asked (t : thread) : option (nat * nat) :=
+  match tpc t with
+  | Wait k e | Fm k e | Unreg k e _ | Close k e _ => Some (k, e)
+  | Get d _ e | Put d _ _ e => Some (d, e)
+  | _ => None
+  end.
+Definition done_ok (t : thread) : option nat :=
+  match tpc t with
+  | Unreg _ e c | Close _ e c => if c =? 0 then Some e else None
+  | _ => None
+  end.
+
+Record ginv (s : cstate) (log : list gev) : Prop := mkginv {
+  g_d : dinv s;
+  g_ask : forall i t k e, nth_error (thr s) i = Some t -> asked t = Some (k, e) -> In (GAsk i k e) log;
+  g_ok : forall i t e, nth_error (thr s) i = Some t -> done_ok t = Some e -> In (GJust e) log;
+  g_ent : forall e, nth_error (ents s) e = Some (true, true) -> In (GJust e) log;
+  g_succ : forall l1 l2 i k e, log = l1 ++ GSucc i k e :: l2 -> In (GJust e) l2 /\ In (GAsk i k e) l2 }.
+
+Lemma succ_push x log :
+  (forall l1 l2 i k e, log = l1 ++ GSucc i k e :: l2 -> In (GJust e) l2 /\ In (GAsk i k e) l2) ->
+  (forall i k e, x = GSucc i k e -> In (GJust e) log /\ In (GAsk i k e) log) ->
+  forall l1 l2 i k e, x :: log = l1 ++ GSucc i k e :: l2 -> In (GJust e) l2 /\ In (GAsk i k e) l2.
+Proof.
+  intros P Hx l1 l2 i k e E. destruct l1 as [|y l1']; cbn in E; inversion E; subst.
+  - apply Hx. reflexivity.
+  - eapply P. reflexivity.
+Qed.
+
+(** Generic preservation: thread i is replaced by t', the entry table changes
+    only by appending fresh entries or by publishing (true, ok) for an entry
+    whose owner recorded its justification, the log only grows. *)
+Lemma ginv_update s s' log log' i t t' :
+  ginv s log -> dinv s' -> nth_error (thr s) i = Some t -> thr s' = upd i t' (thr s) ->
+  (forall x, In x log -> In x log') ->
+  (forall k e, asked t' = Some (k, e) -> In (GAsk i k e) log') ->
+  (forall e, done_ok t' = Some e -> In (GJust e) log') ->
+  (forall e, nth_error (ents s') e = Some (true, true) -> nth_error (ents s) e = Some (true, true) \/ In (GJust e) log') ->
+  (forall l1 l2 i k e, log' = l1 ++ GSucc i k e :: l2 -> In (GJust e) l2 /\ In (GAsk i k e) l2) ->
+  ginv s' log'.
+Proof.
+  intros [D A O En Su] D' Ht Hthr Hmono Ha Ho He Hs. constructor; try assumption.
+  - intros j tj k e Hj Hk. rewrite Hthr in Hj. apply nth_error_upd_inv in Hj.
+    destruct Hj as [[-> ->]|[_ Hj]]; [apply Ha; exact Hk|apply Hmono; eapply A; eassumption].
+  - intros j tj e Hj Hk. rewrite Hthr in Hj. apply nth_error_upd_inv in Hj.
+    destruct Hj as [[-> ->]|[_ Hj]]; [apply Ho; exact Hk|apply Hmono; eapply O; eassumption].
+  - intros e H. destruct (He e H) as [H1|H1]; [apply Hmono; apply En; exact H1|exact H1].
+Qed.
+
+Lemma gstep_inv s e s' log : ginv s log -> step MDedup s e = Some s' -> ginv s' (gstep s e ++ log).
+Proof.
+  intros G H. pose proof (dedup_step_inv s e s' (g_d _ _ G) H) as D'.
+  pose proof G as [D A O En Su].
+  destruct e as [i|i f|i|dt|i alt]; cbn [step gstep] in *.
+  - (* start *)
+    destruct (nth_error (thr s) i) as [t|] eqn:Ht; [|discriminate].
+    destruct (tpc t) eqn:Hp; try discriminate. inversion H; subst; clear H.
+    eapply ginv_update with (i := i); [exact G|exact D'|exact Ht|reflexivity|auto| | |cbn [ents set_pc set_thr]; auto|exact Su].
+    + intros k e Hk. unfold asked in Hk. cbn in Hk. destruct (todo t); discriminate.
+    + intros e Hk. unfold done_ok in Hk. cbn in Hk. destruct (todo t); discriminate.
+  - (* backend call returns *)
+    destruct (nth_error (thr s) i) as [t|] eqn:Ht; [|discriminate].
+    pose proof (d_rest _ D _ _ Ht) as R. unfold single_rest in R.
+    destruct (tpc t) eqn:Hp; try discriminate.
+    + (* Fm *)
+      assert (Hask : In (GAsk i k e) log) by (eapply A; [exact Ht|unfold asked; rewrite Hp; reflexivity]).
+      destruct (f =? 0) eqn:Ef; cbn [negb andb] in *.
+      * destruct (memn k (snk s)) eqn:Ms; inversion H; subst; clear H.
+        -- eapply ginv_update with (i := i); [exact G|exact D'|exact Ht|reflexivity|intros; right; assumption| | |cbn [ents set_pc set_thr]; auto|].
+           ++ intros k0 e0 Hk. inversion Hk; subst. right. exact Hask.
+           ++ intros e0 Hk. inversion Hk; subst. left. reflexivity.
+           ++ apply succ_push; [exact Su|discriminate].
+        -- destruct (thr_begin_base_dedup i t k e s) as [TB _].
+           eapply ginv_update with (i := i); [exact G|exact D'|exact Ht|exact TB|auto| | |cbn; auto|exact Su].
+           ++ intros k0 e0 Hk. inversion Hk; subst. exact Hask.
+           ++ intros e0 Hk. discriminate.
+      * inversion H; subst; clear H.
+        eapply ginv_update with (i := i); [exact G|exact D'|exact Ht|reflexivity|auto| | |cbn [ents set_pc set_thr]; auto|exact Su].
+        -- intros k0 e0 Hk. inversion Hk; subst. exact Hask.
+        -- intros e0 Hk. unfold done_ok in Hk. cbn in Hk. rewrite Ef in Hk. discriminate.
+    + (* Get *)
+      assert (Hask : In (GAsk i d e) log) by (eapply A; [exact Ht|unfold asked; rewrite Hp; reflexivity]).
+      inversion H; subst; clear H.
+      eapply ginv_update with (i := i); [exact G|exact D'|exact Ht|reflexivity|auto| | |cbn [ents set_pc set_thr]; auto|exact Su].
+      * intros k0 e0 Hk. inversion Hk; subst. exact Hask.
+      * intros e0 Hk. discriminate.
+    + (* Put *)
+      subst rest.
+      assert (Hask : In (GAsk i d e) log) by (eapply A; [exact Ht|unfold asked; rewrite Hp; reflexivity]).
+      destruct ((if negb (f =? 0) then f else b) =? 0) eqn:Ec; inversion H; subst; clear H.
+      * eapply ginv_update with (i := i); [exact G|exact D'|exact Ht|reflexivity|intros; right; assumption| | |cbn; auto|].
+        -- intros k0 e0 Hk. inversion Hk; subst. right. exact Hask.
+        -- intros e0 Hk. inversion Hk; subst. left. reflexivity.
+        -- apply succ_push; [exact Su|discriminate].
+      * eapply ginv_update with (i := i); [exact G|exact D'|exact Ht|reflexivity|auto| | |cbn; auto|exact Su].
+        -- intros k0 e0 Hk. inversion Hk; subst. exact Hask.
+        -- intros e0 Hk. unfold done_ok in Hk. cbn in Hk. rewrite Ec in Hk. discriminate.
+  - (* cancel *)
+    destruct (nth_error (thr s) i) as [t|] eqn:Ht; [|discriminate].
+    destruct (cancelled t); [discriminate|]. inversion H; subst; clear H.
+    eapply ginv_update with (i := i); [exact G|exact D'|exact Ht|reflexivity|auto| | |cbn; auto|exact Su].
+    + intros k e Hk. eapply A; [exact Ht|exact Hk].
+    + intros e Hk. eapply O; [exact Ht|exact Hk].
+  - (* clock *)
+    inversion H; subst; clear H. constructor; auto.
+  - destruct (nth_error (thr s) i) as [t|] eqn:Ht; [|discriminate].
+    assert (NA : asked (next_after_key t) = None /\ done_ok (next_after_key t) = None).
+    { unfold next_after_key, asked, done_ok. destruct (todo t) as [|? [|? ?]]; cbn; auto. }
+    destruct NA as [NA NO].
+    destruct (tpc t) eqn:Hp; destruct alt; try discriminate; try (destruct (cancelled t); discriminate).
+    + (* Idle: lookup / register *)
+      destruct (todo t) as [|k rest] eqn:Htd; [discriminate|].
+      destruct (lookup_key k (inflight s)) as [e0|] eqn:L; inversion H; subst; clear H.
+      * eapply ginv_update with (i := i); [exact G|exact D'|exact Ht|reflexivity|intros; right; assumption| | |cbn; auto|].
+        -- intros k0 e1 Hk. inversion Hk; subst. left. reflexivity.
+        -- intros e1 Hk. discriminate.
+        -- apply succ_push; [exact Su|discriminate].
+      * eapply ginv_update with (i := i); [exact G|exact D'|exact Ht|reflexivity|intros; right; assumption| | | |].
+        -- intros k0 e1 Hk. inversion Hk; subst. left. reflexivity.
+        -- intros e1 Hk. discriminate.
+        -- cbn [ents]. intros e1 H1. left.
+           destruct (Nat.lt_ge_cases e1 (length (ents s))) as [Hl|Hl].
+           ++ rewrite nth_error_app1 in H1 by exact Hl. exact H1.
+           ++ rewrite nth_error_app2 in H1 by exact Hl. destruct (e1 - length (ents s))%nat as [|[|?]]; cbn in H1; discriminate.
+        -- apply succ_push; [exact Su|discriminate].
+    + (* Wait, cancelled *)
+      destruct (cancelled t); [|discriminate]. inversion H; subst; clear H.
+      eapply ginv_update with (i := i); [exact G|exact D'|exact Ht|reflexivity|auto| | |cbn; auto|exact Su].
+      * intros k0 e0 Hk. discriminate.
+      * intros e0 Hk. discriminate.
+    + (* Wait, woken *)
+      assert (Hask : In (GAsk i k e) log) by (eapply A; [exact Ht|unfold asked; rewrite Hp; reflexivity]).
+      destruct (nth_error (ents s) e) as [[[] []]|] eqn:Ee; try discriminate; inversion H; subst; clear H.
+      * eapply ginv_update with (i := i); [exact G|exact D'|exact Ht|reflexivity|intros; right; assumption| | |cbn; auto|].
+        -- intros k0 e0 Hk. rewrite NA in Hk. discriminate.
+        -- intros e0 Hk. rewrite NO in Hk. discriminate.
+        -- apply succ_push; [exact Su|]. intros i0 k0 e0 E. inversion E; subst. split; [apply En; exact Ee|exact Hask].
+      * eapply ginv_update with (i := i); [exact G|exact D'|exact Ht|reflexivity|auto| | |cbn; auto|exact Su].
+        -- intros k0 e0 Hk. discriminate.
+        -- intros e0 Hk. discriminate.
+    + (* Unreg *)
+      inversion H; subst; clear H.
+      eapply ginv_update with (i := i); [exact G|exact D'|exact Ht|reflexivity|auto| | |cbn; auto|exact Su].
+      * intros k0 e0 Hk. inversion Hk; subst. eapply A; [exact Ht|unfold asked; rewrite Hp; reflexivity].
+      * intros e0 Hk. eapply O; [exact Ht|]. unfold done_ok in *. rewrite Hp. cbn in Hk. exact Hk.
+    + (* Close: publish the outcome *)
+      assert (Hask : In (GAsk i k e) log) by (eapply A; [exact Ht|unfold asked; rewrite Hp; reflexivity]).
+      assert (Hent : forall v e1, nth_error (upd e (true, v) (ents s)) e1 = Some (true, true) ->
+                     nth_error (ents s) e1 = Some (true, true) \/ (e1 = e /\ v = true)).
+      { intros v e1 H1. apply nth_error_upd_inv in H1. destruct H1 as [[-> E]|[_ H1]]; [right|left; exact H1].
+        inversion E. auto. }
+      destruct (c =? 0) eqn:Ec; inversion H; subst; clear H.
+      * assert (Hj : In (GJust e) log) by (eapply O; [exact Ht|unfold done_ok; rewrite Hp, Ec; reflexivity]).
+        eapply ginv_update with (i := i); [exact G|exact D'|exact Ht|reflexivity|intros; right; assumption| | | |].
+        -- intros k0 e0 Hk. rewrite NA in Hk. discriminate.
+        -- intros e0 Hk. rewrite NO in Hk. discriminate.
+        -- cbn [ents set_thr set_ent]. intros e1 H1. destruct (Hent _ _ H1) as [H2|[-> _]]; [left; exact H2|right; right; exact Hj].
+        -- apply succ_push; [exact Su|]. intros i0 k0 e0 E. inversion E; subst. split; assumption.
+      * eapply ginv_update with (i := i); [exact G|exact D'|exact Ht|reflexivity|auto| | | |exact Su].
+        -- intros k0 e0 Hk. discriminate.
+        -- intros e0 Hk. discriminate.
+        -- cbn [ents set_pc set_thr set_ent]. intros e1 H1. destruct (Hent _ _ H1) as [H2|[_ X]]; [left; exact H2|discriminate].
+    + (* WaitTok, cancelled (not reachable in this mode, but a defined step) *)
+      destruct (cancelled t); [|discriminate]. inversion H; subst; clear H.
+      eapply ginv_update with (i := i); [exact G|exact D'|exact Ht|reflexivity|auto| | |cbn; auto|exact Su].
+      * intros k0 e0 Hk. discriminate.
+      * intros e0 Hk. discriminate.
+Qed.
+
+Lemma grun_inv tr : forall s log s' log', ginv s log -> grun s tr log = Some (s', log') -> ginv s' log'.
+Proof.
+  induction tr as [|e r IH]; intros s log s' log' G H; cbn in H.
+  - inversion H; subst. exact G.
+  - destruct (step MDedup s e) as [s1|] eqn:E; [|discriminate]. eapply IH; [|exact H]. apply gstep_inv; assumption.
+Qed.
+
+Lemma ginv_init sets source sink : ginv (init_state sets source sink) [].
+Proof.
+  assert (H : forall i t, nth_error (map init_thread sets) i = Some t -> tpc t = NotStarted).
+  { intros i t Hi. apply nth_error_In in Hi. apply in_map_iff in Hi. destruct Hi as (x & <- & _). reflexivity. }
+  constructor.
+  - apply dinv_init.
+  - intros i t k e Hi Ha. unfold asked in Ha. cbn in Hi. rewrite (H _ _ Hi) in Ha. discriminate.
+  - intros i t e Hi Ha. unfold done_ok in Ha. cbn in Hi. rewrite (H _ _ Hi) in Ha. discriminate.
+  - intros e He. cbn in He. destruct e; discriminate.
+  - intros [|? ?] l2 i k e E; discriminate.
+Qed.
+
+(** Every success reported to a caller i for key k rests on an in-flight entry
+    e such that, earlier in the trace, (1) caller i asked for k and found or
+    created e, and (2) e's owner saw the sink report k present or completed
+    the copy.  [ask_registered] adds that e was registered under k in the
+    in-flight map at the moment of (1). *)
+Theorem dedup_success_justified sets source sink tr s log :
+  grun (init_state sets source sink) tr [] = Some (s, log) ->
+  forall l1 l2 i k e, log = l1 ++ GSucc i k e :: l2 -> In (GJust e) l2 /\ In (GAsk i k e) l2.
+Proof. intros H. exact (g_succ _ _ (grun_inv tr _ _ _ _ (ginv_init sets source sink) H)). Qed.
+
+Theorem ask_registered s ev s' i k e :
+  step MDedup s ev = Some s' -> In (GAsk i k e) (gstep s ev) -> lookup_key k (inflight s') = Some e.
+Proof.
+  intros H Hin. destruct ev as [j|j f|j|dt|j alt]; cbn [gstep] in Hin; try contradiction.
+  - destruct (nth_error (thr s) j) as [t|] eqn:Ht; [|contradiction].
+    destruct (tpc t); try contradiction.
+    + destruct ((f =? 0) && memn k0 (snk s)); [destruct Hin as [X|[]]; discriminate|contradiction].
+    + destruct rest; [|contradiction]. destruct (_ =? 0); [destruct Hin as [X|[]]; discriminate|contradiction].
+  - destruct alt; [contradiction|]. cbn [step] in H.
+    destruct (nth_error (thr s) j) as [t|] eqn:Ht; [|contradiction].
+    destruct (tpc t) eqn:Hp; try contradiction.
+    + destruct (todo t) as [|k0 rest]; [contradiction|]. destruct Hin as [X|[]]. inversion X; subst.
+      destruct (lookup_key k (inflight s)) as [e0|] eqn:L; inversion H; subst; cbn [inflight set_pc set_thr lookup_key].
+      * exact L.
+      * rewrite Nat.eqb_refl. reflexivity.
+    + destruct (nth_error (ents s) e0) as [[[] []]|]; try contradiction. destruct Hin as [X|[]]; discriminate.
+    + destruct (c =? 0); [destruct Hin as [X|[]]; discriminate|contradiction].
+Qed.
